@@ -64,6 +64,7 @@ def relationsHoldPinned (C : Codecs) (pinned : List (String × Expr)) (env : Env
 
 /-- C04 "internally consistent", lengths and counts per the pinned table -/
 def consistentPinned (C : Codecs) (c : Cmd) (env : Env) : Bool :=
+  andxOk c.isAndX env &&
   match runM C c env with
   | .ok s =>
     intsFit s.env c.marshal && relationsHoldPinned C (pinnedFor c.name) s.env s.P.length 0 c.unmarshal &&
